@@ -12,4 +12,6 @@ let table : (string * (Model.z list list -> Model.z list list)) list = [
   "router", Model.router_run;
   "routerflat", Model.router_flat_run;
   "routerspec", Model.router_spec_run;
+  "locale", Model.locale_run;
+  "localespec", Model.locale_spec_run;
 ]
